@@ -380,6 +380,32 @@ def ob_base(v: int, inject: bool, extra: bool) -> bool:
     return check(ok)
 
 
+@command
+def wrapin(x):
+    RECEIVED.append(("wrapin", x))
+    return Box(("in", x))
+
+
+FALSY = [0, "", [], {}, False, 0.0, b""]
+
+
+def ob_base_falsy(kind: int, n: int) -> bool:
+    """
+    pre: 0 <= kind <= len(FALSY) and -9 <= n <= 9
+    post: _
+    """
+    # the supplied input value reaches the first action as it is - also when it is falsy (only None means "nothing")
+    kind = pick(kind, len(FALSY) + 1)
+    val = n if kind == len(FALSY) else FALSY[kind]
+    ctx = HContext(NoCache(), {})
+    del RECEIVED[:]
+    with quiet():
+        out = ctx.evaluate("wrapin", input_value=val, input_value_specified=True)
+    ok = (not out.is_error) and len(RECEIVED) == 1 and type(RECEIVED[0][1]) is type(val) and RECEIVED[0][1] == val
+    ok = ok and out.data.v[1] == val and ctx.asked == []
+    return check(ok)
+
+
 def ob_link(v: int, lv: int, absolute: bool, lerr: bool) -> bool:
     """
     pre: 0 <= v <= 9 and 0 <= lv <= 9 and absolute == part("abs") and lerr == part("lerr")
@@ -511,6 +537,7 @@ def obligations(tier):
         obs.append(Ob("ob_step", dict(q=i), timeout=t, per_path=60, twin_timeout=60, bounds="(c) Q=%s; symbolic data, variable, volatility, 0..2 earlier commands" % STEP[i][0]))
     for i in range(4):
         obs.append(Ob("ob_base", dict(q=i), timeout=t, per_path=60, twin_timeout=60, bounds="(c) base case %s with/without injected input / extra parameter" % ["one", "s_first-4", "addn-5", "s_first"][i]))
+    obs.append(Ob("ob_base_falsy", {}, timeout=t, per_path=60, twin_timeout=60, bounds="(c) base case: injected input 0 / '' / [] / {} / False / 0.0 / b'' / symbolic int reaches the first action unchanged"))
     for d2 in ([False] if q else [False, True]):
         for ab in (True, False):
             for le in (True, False):
